@@ -96,6 +96,153 @@ def gen(rng, n):
     return lits
 
 
+CSR_NAMES = {"ustatus": 0, "fflags": 1, "frm": 2, "fcsr": 3, "uie": 4, "utvec": 5, "uscratch": 0x40,
+             "uepc": 0x41, "ucause": 0x42, "utval": 0x43, "uip": 0x44, "cycle": 0xC00, "time": 0xC01,
+             "instret": 0xC02, "cycleh": 0xC80, "timeh": 0xC81, "instreth": 0xC82}
+ESCAPES = {"\\": 92, "'": 39, '"': 34, "n": 10, "t": 9, "r": 13, "b": 8, "f": 12, "0": 0}
+# (template, column of the literal, which field carries the value)
+CONTEXTS = [("li t0, {}", 7, "imm"), ("addi t0, t1, {}", 13, "imm"), ("lui t0, {}", 8, "lui"),
+            ("lw t0, {}(sp)", 7, "off"), ("sw t0, {}(sp)", 7, "off"), (".word {}", 6, "data"),
+            (".byte 1, {}", 9, "data2"), ("csrrwi t0, 0x300, {}", 18, "imm"), ("csrrw t0, {}, t1", 10, "csr"),
+            ("csrrsi t0, {}, 3", 11, "csr")]
+SYMCH = set("abcdefghijklmnopqrstuvwxyzABCDEFGHIJKLMNOPQRSTUVWXYZ0123456789_-")
+
+
+def char_denote(body):
+    """Code point a character literal with this body (text between the quotes) denotes, else None."""
+    if len(body) == 1 and body not in ("\\", "\n", "'"):
+        return ord(body)
+    if len(body) == 2 and body[0] == "\\" and body[1] in ESCAPES:
+        return ESCAPES[body[1]]
+    if len(body) == 6 and body[:2] == "\\u" and all(c in "0123456789abcdefABCDEF" for c in body[2:]):
+        v = int(body[2:], 16)
+        return None if 0xD800 <= v <= 0xDFFF else v
+    return None
+
+
+def gen_statements(rng, n):
+    """(statement, column, field, literal, expected value or None=must be rejected or 'skip')."""
+    lits = []
+    edge = [0, 1, -1, 2047, -2048, 2**31 - 1, -2**31, 2**31, 2**32 - 1, 2**32, -2**31 - 1, 2**33, 4095, 4096,
+            0xfffff, 0x100000, 255, 256, 31, 32, 10**12]
+    for v in edge:
+        for _ in range(2):
+            lits.append(spell(v, rng).strip(" \t\n"))
+    for _ in range(n):
+        lits.append(spell(rng.randrange(-2**31, 2**32) if rng.random() < 0.8 else rng.randrange(-2**34, 2**34),
+                          rng).strip(" \t\n"))
+    lits += ["0x", "0b", "--5", "0xg", "0b2", "12a", "1_000", "0x1_0", "zeroo", "-zero", "zero", "ZERO", "0X", "-",
+             "0-1", "5-", "0x0x1", "-0x", "0x-1", "99999999999999999999", "0xFFFFFFFFF", "-0b1" + "0" * 31,
+             "-0b1" + "0" * 30 + "1", "0b" + "1" * 33]
+    lits += list(CSR_NAMES) + ["CYCLE", "Time", "mstatus", "cyclee"]
+    chars = ["a", "Z", "0", " ", "~", "#", '"', ",", "(", ":", "\u00e9", "\u20ac", "\U0001f600",
+             "\\n", "\\t", "\\r", "\\b", "\\f", "\\0", "\\\\", "\\'", '\\"',
+             "\\u0041", "\\u00e9", "\\uFFFF", "\\uffff", "\\uD800", "\\udfff", "\\ue000", "\\u0000",
+             "\\u+041", "\\u-041", "\\u00g1", "\\u 041", "\\u041", "\\u00410", "\\u", "\\x41", "\\a", "\\1",
+             "ab", "", "\\", "\\u+0041", "\\u0x41", "\\u_041", "\\u4 1 "]
+    for _ in range(max(4, n // 20)):
+        chars.append("\\u" + "".join(rng.choice("0123456789abcdefABCDEF+-gx _") for _ in range(4)))
+        chars.append("\\u%04x" % rng.randrange(0x10000))
+        chars.append("\\" + rng.choice("ntrbf0uxae1\\'\"? "))
+    out = []
+    for l in lits:
+        for tmpl, col, field in (CONTEXTS if len(out) < 4000 else rng.sample(CONTEXTS, 3)):
+            if not set(l) <= SYMCH or not l:
+                want = "skip"
+            elif field == "csr" and l.lower() in CSR_NAMES:
+                want = CSR_NAMES[l.lower()]
+            else:
+                d = py_denote(l)
+                if d is None or d < -2**31 or d >= 2**32:
+                    want = None
+                else:
+                    d %= 2**32
+                    if field == "lui":
+                        d = (d << 12) % 2**32
+                    want = d if field == "csr" else (d - 2**32 if d >= 2**31 else d)
+            out.append((tmpl.format(l) + "\n", col, field, l, want))
+    for body in chars:
+        l = "'" + body + "'"
+        for tmpl, col, field in CONTEXTS:
+            if field == "csr":
+                continue                      # a CSR operand is a number or a name, never a character
+            want = char_denote(body)
+            if want is not None and field == "lui":
+                want = (want << 12) % 2**32
+                want = want - 2**32 if want >= 2**31 else want
+            out.append((tmpl.format(l) + "\n", col, field, l, want))
+    return out
+
+
+def value_of(blk, field):
+    """The value the parsed statement carries for the literal, or None when there is no such node."""
+    import re
+    node = next((x for x in blk if x.startswith("NODE 1 ")), None)
+    if node is None:
+        return None
+    if field in ("imm", "lui", "off"):
+        if field == "off" and " LoadAddr " in node:
+            return None
+        m = re.search(r" imm=(-?\d+)/", node)
+        return int(m.group(1)) if m else None
+    if field == "csr":
+        m = re.search(r" csr=(\d+)/", node)
+        return int(m.group(1)) if m else None
+    m = re.search(r" Data \w+ \[([^\]]*)\]", node)
+    if not m:
+        return None
+    vals = [int(x.split("/")[0]) for x in m.group(1).split(",") if x]
+    idx = 0 if field == "data" else 1
+    return vals[idx] if len(vals) > idx else None
+
+
+def through_parser(res, rng, tier):
+    """The same literals where a program has them: instruction operands, load/store offsets, lui,
+    data directives, CSR operands - lexer, parser and conversion together."""
+    import re
+    cases = gen_statements(rng, 60 if tier == "quick" else 6000)
+    reqs = [f"parse 1 {hx('m.s')} {hx(st)}" for st, *_ in cases]
+    dbg = run_lines_isolated(RVH_DEBUG, reqs, chunk=2000)
+    rel = run_lines_isolated(RVH_RELEASE, reqs, chunk=2000)
+    mod = run_lines(DRIVER, reqs)
+    first = None
+    tally = {"accepted": 0, "rejected": 0, "not_judged_by_oracle": 0, "char_literals": 0}
+    for (st, col, field, lit, want), a, b, m in zip(cases, dbg, rel, mod):
+        if lit.startswith("'"):
+            tally["char_literals"] += 1
+        for prof, blk in (("debug", a), ("release", b)):
+            what = None
+            if blk != m:
+                what = "parser model and implementation disagree"
+            if any(x.startswith(("PANIC", "CRASH", "HANG", "ABORT")) for x in blk):
+                what = "the parser does not return normally"
+            elif want == "skip":
+                pass
+            elif want is None:
+                got = value_of(blk, field)
+                perr = [x for x in blk if x.startswith("PERR")]
+                if got is not None:
+                    what = f"literal must be rejected, is read as {got}"
+                elif not perr:
+                    what = "literal must be rejected, no parse error is reported"
+                elif field == "off":
+                    pass     # a symbol that is no number is a label here (`lw rd, label`): the error, if any, is later
+                elif not lit.startswith("'") and not any(re.search(rf":0:{col}:{col}-", x) for x in perr):
+                    what = f"the parse error is not on the literal (column {col})"
+            else:
+                got = value_of(blk, field)
+                if got != want:
+                    what = f"literal denotes {want}, is read as {got}"
+            if what and first is None:
+                first = {"statement": st, "literal": lit, "profile": prof, "what": what, "impl": blk, "model": m,
+                         "expected": want, "no_input": what.startswith("parser model"),
+                         "replay_cmd": f"echo 'parse 1 {hx('m.s')} {hx(st)}' | {RVH_DEBUG if prof == 'debug' else RVH_RELEASE}"}
+        tally["not_judged_by_oracle" if want == "skip" else "rejected" if want is None else "accepted"] += 1
+    res.notes["through_parser_statements"] = len(cases)
+    res.notes["through_parser_distribution"] = tally
+    return first, len(cases)
+
+
 def run(res, tier, seed):
     rng = random.Random(seed)
     proof_ok = proof_stage(res, "Rva.Proofs.C17", THEOREMS)
@@ -126,7 +273,19 @@ def run(res, tier, seed):
     res.cov["samples"] = lits[:3] + lits[-3:]
     res.cov["input_distribution"] = kinds
     res.cov["traces_validated_against_impl"] = 2 * len(reqs)
-    if first is not None:
+    pfirst, pn = through_parser(res, rng, tier)
+    res.cov["evaluations"] += 2 * pn
+    res.cov["traces_validated_against_impl"] += 2 * pn
+    res.cov["rule"] += ("; the same spellings plus character literals (plain, every escape, \\uXXXX well and ill "
+                        "formed) as operands of li/addi/lui/lw/sw/.word/.byte/csrrwi/csrrw through the real lexer and "
+                        "parser vs model vs denotation, error location on the literal")
+    if first is None and pfirst is not None:
+        if pfirst.get("no_input"):
+            res.violation(f"parser correspondence broken on {pfirst['statement']!r}; no mis-read literal found",
+                          pfirst, no_input=True)
+        else:
+            res.violation(f"{pfirst['statement']!r}: {pfirst['what']} [{pfirst['profile']}]", pfirst)
+    elif first is not None:
         res.violation(f"literal {first['literal']!r} read as {first['impl']} [{first['profile']}], "
                       f"denotation says {first['expected']}", first)
     elif not proof_ok:
